@@ -338,6 +338,7 @@ func runC15(c *Ctx) {
 	runC15Shares4(c)
 	runC15Round5(c)
 	runC15JSONExhausted(c)
+	runC15Round5b(c)
 }
 
 func runC15Wiring(c *Ctx, names map[int64]string) {
